@@ -262,11 +262,16 @@ def select__union_operator(self: XPathToken, context: ta.ContextType = None) \
     if context is None:
         raise self.missing_context()
 
-    results = {item for k in range(2) for item in self[k].select(copy(context))}
-    if any(not isinstance(x, XPathNode) for x in results):
-        raise self.error('XPTY0004', 'only XPath nodes are allowed')
-    elif self.concatenated:
-        yield from cast(set[XPathNode], results)
+    results: set[XPathNode] = set()
+    for k in range(2):
+        for item in self[k].select(copy(context)):
+            if not isinstance(item, XPathNode):
+                # Checked before adding: maps, arrays and functions are not hashable
+                raise self.error('XPTY0004', 'only XPath nodes are allowed')
+            results.add(item)
+
+    if self.concatenated:
+        yield from results
     else:
         yield from cast(list[XPathNode], sorted(results, key=node_position))
 
